@@ -121,6 +121,34 @@ def run(tier):
         dsw = tensor.Swap(Dim(2), Dim(2)) >> tensor.Box('g', Dim(2, 2), Dim(1), [x, 0, y * x, 1])
         suite.identity('tensor.Diagram.grad.swap_first', arr(total(dsw.grad(x))), diff_arr(dsw.eval(), x), extra=(x, y),
                        functions=['tensor.Diagram.grad', 'monoidal.Sum.upgrade'])
+    # daggered symbolic tensor boxes (non-square, non-symmetric, complex entries): the box rule under the dagger
+    with suite.guard('tensor.Box.grad.dagger', ['tensor.Box.grad']):
+        fb = tensor.Box('f', Dim(2), Dim(3), [x, x ** 2, y, x * y, I * x, 2 * x])
+        for nm, dd in (('f.dagger()', fb.dagger()), ('f >> f.dagger()', fb >> fb.dagger()), ('f.dagger() >> f', fb.dagger() >> fb),
+                       ('f.dagger().dagger()', fb.dagger().dagger())):
+            suite.identity('tensor.grad[%s]' % nm, arr(total(dd.grad(x))), diff_arr(dd.eval(), x), extra=(x, y),
+                           functions=['tensor.Box.grad', 'tensor.Diagram.grad'],
+                           what='gradient of a diagram with a daggered symbolic box = derivative of its evaluation')
+    # formal sums of circuits: pure gradients (mixed=False reaches every term) and second derivatives
+    with suite.guard('circuit.Sum.grad', ['quantum.circuit.Sum.grad']):
+        cs = (gates.Ket(0) >> Rx(x) >> Rz(x * y)) + (gates.Ket(0) >> Ry(x ** 2 + y))
+        gp = cs.grad(x, mixed=False)
+        ev = gp.eval(mixed=False)
+        suite.fact('circuit.Sum.grad.pure.kind', type(ev).__name__ == 'Tensor', functions=['quantum.circuit.Sum.grad'],
+                   what='the pure gradient of a sum of pure circuits evaluates to amplitudes (got a %s)' % type(ev).__name__)
+        suite.identity('circuit.Sum.grad.pure', arr(ev), diff_arr(cs.eval(mixed=False), x), angle=[x, y],
+                       functions=['quantum.circuit.Sum.grad'], what='pure gradient of a formal sum = sum of the pure gradients')
+        c1 = gates.Ket(0) >> Rx(x) >> Rz(2 * x)
+        g2 = c1.grad(x, mixed=False).grad(x, mixed=False)
+        amp = [sympy.sympify(v) for v in numpy.array(c1.eval(mixed=False).array, dtype=object).flatten()]
+        ok2 = True
+        for val in (0.13, -0.4, 1.7):
+            got2 = numpy.array(g2.subs(x, val).eval(mixed=False).array, dtype=complex).flatten()
+            want2 = numpy.array([complex(sympy.N(sympy.diff(a_, x, 2).subs(x, val))) for a_ in amp])
+            ok2 = ok2 and got2.shape == want2.shape and numpy.allclose(got2, want2, atol=1e-8)
+        suite.fact('circuit.grad.second.pure', bool(ok2), functions=['quantum.circuit.Sum.grad'],
+                   what='second pure derivative (the gradient of a gradient is a sum of circuits), compared numerically at '
+                        'x = 0.13, -0.4, 1.7 (the factor pi ** 2 is outside the polynomial normal form)')
     # a formal sum of tensor diagrams differentiates term by term
     with suite.guard('tensor.Sum.grad', ['tensor.Sum.grad']):
         ts = tensor.Box('v', Dim(1), Dim(2), [x ** 2, y]) + (tensor.Box('w', Dim(1), Dim(2), [y, x * y]))
